@@ -24,6 +24,7 @@ ASSUMPTIONS = [
 
 N = {"quick": {"py": 12, "cpp": 4}, "thorough": {"py": 160, "cpp": 16}}
 MOVES = {"quick": {"py": 400, "cpp": 500}, "thorough": {"py": 2500, "cpp": 4000}}
+LONG = {"quick": {"py": 3, "cpp": 6}, "thorough": {"py": 10, "cpp": 30}}
 COMBOS = [(True, True), (True, False), (False, True), (False, False)]
 
 
@@ -43,7 +44,20 @@ def floors(tier):
             "counters": {"py_moves_checked": N[tier]["py"] * MOVES[tier]["py"] // 2,
                          "cpp_moves_checked": N[tier]["cpp"] * MOVES[tier]["cpp"] // 2,
                          "backward_moves": 100, "equal_time_moves": 20, "multi_step_moves": 200,
-                         "boundary_delta_moves": 100}}
+                         "boundary_delta_moves": 100,
+                         "py_long_moves_checked": N[tier]["py"] * LONG[tier]["py"] // 2,
+                         "cpp_long_moves_checked": N[tier]["cpp"] * LONG[tier]["cpp"] // 2}}
+
+
+def gen_long_move(rng):
+    """A coast over 2e4 .. 4e5 steps (hours of filter time at a 10-100 ms step)."""
+    cands = [i for i, md in enumerate(rtmodel.MAX_DTS) if 5e-3 <= md <= 0.5]
+    mi = rng.choice(cands)
+    md = rtmodel.MAX_DTS[mi]
+    n = rng.randint(20_000, 400_000)
+    a = rng.choice([0.0, 100.0, -250.5, round(rng.uniform(-1e3, 1e3), 3)])
+    d = (n + rng.choice([0.0, 0.5, rng.random()])) * md
+    return mi, md, a, a + rng.choice([1.0, 1.0, -1.0]) * d, "long"
 
 
 def gen_move(rng):
@@ -117,6 +131,20 @@ def _py(R, rng, ctx):
             continue
         dts = [e[1] for e in res.state if e[0] == "p"]
         _classify(R, a, b, md, kind, dts, "py")
+    # very long coasts (run-length encoded log)
+    for _ in range(LONG[ctx["tier"]]["py"]):
+        mi, md, a, b, kind = gen_long_move(rng)
+        rec = rtmodel.RecFilterRLE(md, control_size=rng.choice([0, 1]))
+        mf = ManagedFilter(rec, a, (), None)
+        try:
+            res = mf.tick(b, control=5 if rec.control_size else None)
+        except Exception as e:  # noqa: BLE001
+            R.add([K.V(K.exc_key("py:tick", e), f"ManagedFilter.tick raised: {K.exc_text(e)}", max_dt=md, a=a, b=b)])
+            continue
+        dts = [e[1] for e in rtmodel.RecFilterRLE.expand(res.state) if e[0] == "p"]
+        R.stats.inc("py_long_moves_checked")
+        R.stats.mx("longest_move_steps", len(dts))
+        _classify(R, a, b, md, kind, dts, "py")
     # histories: readings move the held time forwards and backwards
     for _ in range(MOVES[ctx["tier"]]["py"] // 20):
         mi, md, a, _, _ = gen_move(rng)
@@ -143,6 +171,7 @@ def _cpp(R, rng, ctx, i):
     moves = [gen_move(rng) for _ in range(MOVES[ctx["tier"]]["cpp"])]
     # keep the quadratic log copies bounded
     moves = [m for m in moves if abs(m[3] - m[2]) / m[1] <= 2001]
+    moves += [gen_long_move(rng) for _ in range(LONG[ctx["tier"]]["cpp"])]
     with cppdrv.Scratch() as sc:
         sc.write("rt.cpp", src)
         ok, err = cppdrv.compile_cpp(sc, ["rt.cpp"], out="rt", compiler=compiler)
@@ -167,6 +196,9 @@ def _cpp(R, rng, ctx, i):
     for (mi, md, a, b, kind), toks in zip(moves, lines):
         ev = rtmodel.parse_r_line(toks)
         dts = [e[1] for e in ev if e[0] == "p"]
+        if kind == "long":
+            R.stats.inc("cpp_long_moves_checked")
+            R.stats.mx("longest_move_steps", len(dts))
         _classify(R, a, b, md, kind, dts, "cpp")
     R.stats.inc(f"cpp_combo_{combo}")
 
